@@ -460,6 +460,39 @@ func checkC09(e *Engine, r *Report) {
 				ok := len(a) >= 2 && isElementOfParam(a[1], pr.param)
 				r.Check("R1:sync-iterates-"+pr.what+"@"+FnName(fn), "R1 release pairing", "Sync's "+pr.what+" loop handles exactly the elements of its "+pr.what+" parameter", e.InstrPos(in), fn, ok, "", true)
 			})
+			// … all of them: no iteration over the parameter ends without the call for its element (two containers on the
+			// list are two containers, whatever else they have in common)
+			nLoop := 0
+			for _, lp := range sliceLoops(fn) {
+				lp := lp
+				if paramIndex(rangedSlice(lp)) != pr.param {
+					continue
+				}
+				nLoop++
+				handles := func(in ssa.Instruction) bool {
+					if !pr.calls(in) {
+						return false
+					}
+					a := callArgs(in.(ssa.CallInstruction))
+					return len(a) >= 2 && lp.elem(a[1])
+				}
+				// seeing the same container (same id) again may be skipped; nothing else may
+				firstTime := func(cond ssa.Value) (bool, bool) {
+					if ex, ok := unspill(cond).(*ssa.Extract); ok && ex.Index == 1 {
+						if lk, ok := ex.Tuple.(*ssa.Lookup); ok && lk.CommaOk {
+							if c, ok := unspill(lk.Index).(ssa.CallInstruction); ok && callObj(c.Common()) != nil && callObj(c.Common()).Name() == "GetID" && lp.elem(callArgs(c)[0]) {
+								return true, false
+							}
+						}
+					}
+					return false, false
+				}
+				p := lp.skips(firstTime, handles, true)
+				r.Check("R1:sync-handles-every-"+pr.what+"@"+FnName(fn), "R1 release pairing", "Sync handles every element of its "+pr.what+" list (none is skipped)", e.InstrPos(lp.start), fn, p == nil, e.pathString(p), true)
+			}
+			if nLoop == 0 {
+				r.Check("R1:sync-handles-every-"+pr.what+"@"+FnName(fn), "R1 release pairing", "Sync ranges over its "+pr.what+" list", e.Pos(fn.Pos()), fn, false, "no loop over the parameter", true)
+			}
 		}
 	}
 
